@@ -132,6 +132,33 @@ def run(ctx, rep):
                      (psc.is_index_call(s_['what']) or (s_['what'].endswith('::unwrap') and 'nth' in str(sym(fn, s_['term']['args'][0]))))]
         okb = bool(acc_sites) and all(c05.verdict_for(ctx, s_)[0] for s_ in acc_sites)
         rep.ob(okb, 'R13.2', name, 'bound test', 'the element access is dominated by `index < count` (out of range is exactly index >= count): %s' % [c05.verdict_for(ctx, s_)[1][:60] for s_ in acc_sites], fn.loc())
+    # a position that is still negative after the shift must be rejected: the index reaches the bound test either through the
+    # wrapping conversion `as usize` (a negative number becomes huge) or after an explicit `< 0` rejection; any other way of
+    # making it unsigned (abs, unsigned_abs, a mask) folds positions below -count back into range
+    for name, info in routines.items():
+        fn = info['fn']
+        conv = []
+        for b_, t_ in fn.calls():
+            n_ = callee_name(t_)
+            if n_.endswith(('::unsigned_abs', '::abs', '::wrapping_abs', '::rem_euclid', '::checked_abs', '::saturating_abs')) and 'isize' in n_ + str(t_['callee'].get('generic_args')) + fn.local_ty(t_['dest']['local']):
+                conv.append(n_.split('::')[-1])
+            elif n_.endswith(('::unsigned_abs', '::abs', '::wrapping_abs', '::rem_euclid')):
+                conv.append(n_.split('::')[-1])
+        masks = [st_ for b_, si_, st_ in fn.stmts() if st_['k'] == 'assign' and st_['rv']['k'] == 'binop' and st_['rv']['op'] in ('BitAnd', 'Rem') and st_['rv'].get('lty') in ('isize', 'i64')]
+        rep.ob(not conv and not masks, 'R13.2', name, 'still-negative position rejected',
+               'the only way a signed position becomes unsigned is the wrapping `as usize` (or an explicit `< 0` test): found %s' % (conv + ['%s on the signed index' % m_['rv']['op'] for m_ in masks]), fn.loc())
+    # reading a character of a string makes a new string: the result is never the indexed string itself
+    gs = F.fn('vm::index_get_string')
+    fresh = True
+    oks = 0
+    for p_ in AbsInt(F, gs, max_paths=5000).run():
+        r_ = simp(p_.env.get('_0'))
+        if p_.exit == 'return' and r_ and r_[0] == 'agg' and r_[2] == 'Ok':
+            oks += 1
+            v_ = deref(p_.env, r_[3][0])
+            if not (v_[0] == 'call' and v_[1].endswith('::string') and 'object::' in v_[1]):
+                fresh = False
+    rep.ob(fresh and oks >= 1, 'R13.2', gs.path, 'fresh character string', 'every successful read of a character returns a newly built string (never the indexed string, which index assignment could then change through the copy)', gs.loc())
     rep.table('index_routines', {k: {x: y for x, y in v_.items() if x != 'fn'} for k, v_ in routines.items()})
 
     # ---- R13.3 ---------------------------------------------------------------------------------
